@@ -19,6 +19,7 @@ import (
 	"net/http"
 	"net/http/httptrace"
 	nurl "net/url"
+	"reflect"
 	"strings"
 )
 
@@ -156,17 +157,40 @@ func buildRequest(ctx context.Context, method, url string, data interface{}) (*h
 
 func fillHeader(r *http.Request, m map[string]interface{}) {
 	for k, v := range m {
-		r.Header.Add(k, fmt.Sprint(v))
+		if text, ok := valueText(v); ok {
+			r.Header.Add(k, text)
+		}
 	}
 }
 
 func buildFormQuery(u *nurl.URL, m map[string]interface{}) string {
 	query := u.Query()
 	for k, v := range m {
-		query.Add(k, fmt.Sprint(v))
+		if text, ok := valueText(v); ok {
+			query.Add(k, text)
+		}
 	}
 
 	return query.Encode()
+}
+
+// valueText 返回字段值的文本形式：指针字段取其指向的值（否则发出去的是内存地址），
+// 空指针表示该（可选）字段未设置，不发送。
+func valueText(v interface{}) (string, bool) {
+	rv := reflect.ValueOf(v)
+	for rv.Kind() == reflect.Ptr {
+		if rv.IsNil() {
+			return "", false
+		}
+
+		rv = rv.Elem()
+	}
+
+	if !rv.IsValid() {
+		return fmt.Sprint(v), true
+	}
+
+	return fmt.Sprint(rv.Interface()), true
 }
 
 func fillPath(u *nurl.URL, m map[string]interface{}) error {
@@ -181,7 +205,7 @@ func fillPath(u *nurl.URL, m map[string]interface{}) error {
 			if !ok {
 				return fmt.Errorf("缺少路径变量 %q", name)
 			}
-			value := fmt.Sprint(v)
+			value, _ := valueText(v)
 			if len(value) == 0 {
 				return fmt.Errorf("路径变量的值不能为空 %q", name)
 			}
